@@ -47,8 +47,12 @@ type Failure struct {
 	Cost    int
 }
 
-// Choose returns a decision in [0,n).  n must be the same whenever the same
+// Choose returns a decision in [0,n).  (norace: in scheduled runs it is called
+// from whichever thread is running; the scheduler guarantees exclusivity but
+// deliberately hides its hand-offs from the race detector.)  n must be the same whenever the same
 // prefix of decisions is replayed; a mismatch is a hard harness error.
+//
+//go:norace
 func (c *C) Choose(n int, kind ChoiceKind, label string) int {
 	if n <= 0 {
 		panic(HarnessPanic(fmt.Sprintf("explore: Choose(%d) at %s", n, label)))
@@ -75,7 +79,7 @@ func (c *C) Choose(n int, kind ChoiceKind, label string) int {
 		panic(HarnessPanic(fmt.Sprintf("explore: replay ran past the recorded choices at %s", label)))
 	}
 	first := 0
-	if c.pos == 0 && c.e.NShards > 1 {
+	if c.pos == 0 && c.e.NShards > 1 && !c.e.GateSharding {
 		first = c.e.Shard
 		if first >= n {
 			// this shard has no work at the root: signal by aborting the execution
@@ -85,6 +89,26 @@ func (c *C) Choose(n int, kind ChoiceKind, label string) int {
 	c.stack = append(c.stack, frame{n: n, chosen: first, kind: kind, label: label})
 	c.pos++
 	return first
+}
+
+// Gate is the sharding point of gate-sharded explorations: the body calls it
+// once, after its leading data choices and before any expensive work.  The
+// execution continues only in the worker that owns the choice prefix (by
+// hash); in the others it is abandoned without being counted.
+//
+//go:norace
+func (c *C) Gate() {
+	if !c.e.GateSharding || c.e.NShards <= 1 || c.Replay {
+		return
+	}
+	var h uint32 = 2166136261
+	for i := 0; i < c.pos; i++ {
+		h = (h ^ uint32(c.stack[i].chosen)) * 16777619
+		h = (h ^ uint32(c.stack[i].n)) * 16777619
+	}
+	if int(h%uint32(c.e.NShards)) != c.e.Shard {
+		panic(errSkip)
+	}
 }
 
 // Bool is Choose(2) as a bool.
@@ -113,6 +137,7 @@ func (c *C) Choices() []int {
 }
 
 var errNoWork = fmt.Errorf("no work for shard")
+var errSkip = fmt.Errorf("execution belongs to another shard")
 
 // HarnessPanic is the type of every panic the explorer raises about the harness
 // itself (nondeterminism, bad replay files); code that recovers panics of the
@@ -124,7 +149,7 @@ func IsHarnessPanic(p interface{}) bool {
 	if _, ok := p.(HarnessPanic); ok {
 		return true
 	}
-	return p == errNoWork
+	return p == errNoWork || p == errSkip
 }
 
 type Stats struct {
@@ -140,12 +165,13 @@ type Stats struct {
 }
 
 type Explorer struct {
-	Bound       int // max deviations per execution
-	Shard       int
-	NShards     int
-	Deadline    time.Time // zero = none
-	MaxFailures int       // stop after this many failures (0 = 50)
-	Stats       Stats
+	Bound        int // max deviations per execution
+	Shard        int
+	NShards      int
+	GateSharding bool      // shard at C.Gate() by hash of the choice prefix instead of striding the first choice
+	Deadline     time.Time // zero = none
+	MaxFailures  int       // stop after this many failures (0 = 50)
+	Stats        Stats
 }
 
 // Run enumerates the whole choice tree of body.
@@ -164,9 +190,16 @@ func (e *Explorer) Run(body func(c *C)) {
 	for {
 		c.pos, c.cost, c.outcome, c.fail = 0, 0, "", nil
 		before := len(c.stack)
-		nowork := e.exec(c, body)
+		nowork, skipped := e.exec(c, body)
 		if nowork {
 			break
+		}
+		if skipped {
+			c.stack = c.stack[:c.pos] // only the choices made before the gate exist
+			if !e.advance(c) {
+				break
+			}
+			continue
 		}
 		if c.pos < len(c.stack) {
 			panic(HarnessPanic(fmt.Sprintf("explore: nondeterministic harness: execution ended after %d choices, %d were recorded", c.pos, len(c.stack))))
@@ -206,18 +239,22 @@ func (e *Explorer) Run(body func(c *C)) {
 	e.Stats.Elapsed += time.Since(start)
 }
 
-func (e *Explorer) exec(c *C, body func(c *C)) (nowork bool) {
+func (e *Explorer) exec(c *C, body func(c *C)) (nowork, skipped bool) {
 	defer func() {
 		if r := recover(); r != nil {
 			if r == errNoWork {
 				nowork = true
 				return
 			}
+			if r == errSkip {
+				skipped = true
+				return
+			}
 			panic(r)
 		}
 	}()
 	body(c)
-	return false
+	return false, false
 }
 
 // advance moves to the next leaf in depth-first order; false when done.
@@ -226,7 +263,7 @@ func (e *Explorer) advance(c *C) bool {
 		i := len(c.stack) - 1
 		f := &c.stack[i]
 		step := 1
-		if i == 0 && e.NShards > 1 {
+		if i == 0 && e.NShards > 1 && !e.GateSharding {
 			step = e.NShards
 		}
 		if f.chosen+step < f.n {
